@@ -52,12 +52,25 @@ Proof. exact pkce_no_downgrade. Qed.
 Print Assumptions C19_pkce_no_downgrade.
 
 (* request_parameter_supported is true exactly when a correctly signed request object is honoured,
-   and false exactly when it is refused with request_not_supported, for every kind of client *)
-Theorem C19_request_object_honoured : forall (r : router) (c : config) (k : client_kind),
-  (doc_reqparam c = true <-> reqobj_outcome r c k = RoHonoured)
-  /\ (doc_reqparam c = false <-> reqobj_outcome r c k = RoNotSupported).
+   for every kind of client and wherever OIDC Core 6.1 lets the parameters live (all outside;
+   redirect_uri only inside the object; state only inside) *)
+Theorem C19_request_object_honoured : forall (r : router) (c : config) (k : client_kind) (p : ro_placement),
+  ro_legal p = true ->
+  (doc_reqparam c = true <-> reqobj_outcome r c k p = RoHonoured).
 Proof. exact request_object_honoured. Qed.
 Print Assumptions C19_request_object_honoured.
+
+(* not advertised: refused with request_not_supported when all parameters are also outside ... *)
+Theorem C19_request_object_refused : forall (r : router) (c : config) (k : client_kind),
+  doc_reqparam c = false -> reqobj_outcome r c k PBoth = RoNotSupported.
+Proof. exact request_object_refused. Qed.
+Print Assumptions C19_request_object_refused.
+
+(* ... and never honoured, whatever the placement *)
+Theorem C19_request_object_not_advertised : forall (r : router) (c : config) (k : client_kind) (p : ro_placement),
+  doc_reqparam c = false -> reqobj_outcome r c k p <> RoHonoured.
+Proof. exact request_object_not_advertised. Qed.
+Print Assumptions C19_request_object_not_advertised.
 
 (* the document's issuer is the issuer put into tokens, whichever router serves which *)
 Theorem C19_issuer_same : forall (r r' : router) (c : config) (q : request),
